@@ -439,6 +439,9 @@ func (v *fnVC) exFor(cur, old *State, extra map[string]*T) *Ex {
 	x := &Ex{enc: v.e, w: v.w, pkg: v.fn.Pkg.Pkg, vars: map[string]*T{}, lets: map[string]string{}, cur: cur, old: old}
 	for k, t := range v.params {
 		x.vars[k] = t
+		if strings.Contains(k, "$") {
+			x.vars[strings.ReplaceAll(k, "$", "_S_")] = t
+		}
 	}
 	if v.ct != nil && v.ct.YieldN != "" && cur != nil {
 		x.vars["yielded"] = cur.get(ghostYielded, sI64)
